@@ -2945,13 +2945,7 @@ func runBal1(m *Model, r *RuleResult) {
 				if !ok || !((bo.Op == token.EQL && d.Branch == 0) || (bo.Op == token.NEQ && d.Branch == 1)) {
 					continue
 				}
-				cx, ok1 := bo.X.(*ssa.Call)
-				cy, ok2 := bo.Y.(*ssa.Call)
-				if !ok1 || !ok2 || cx.Call.StaticCallee() == nil || cy.Call.StaticCallee() == nil {
-					continue
-				}
-				nx, ny := cx.Call.StaticCallee().Name(), cy.Call.StaticCallee().Name()
-				if ((nx == "Indeg" && ny == "Outdeg") || (nx == "Outdeg" && ny == "Indeg")) && cx.Call.Args[0] == node && cy.Call.Args[0] == node {
+				if a, b := degreeOperand(bo.X, node), degreeOperand(bo.Y, node); a != "" && b != "" && a != b {
 					degGuard = true
 				}
 			}
